@@ -94,8 +94,10 @@ impl<'a> LongChain<'a> {
             // An empty segment would make `chunk` return an empty slice while data remains
             return;
         }
-        self.total_remaining_len += cow.len();
+        let len = cow.len();
+        // `Vec::insert` panics if `index` is out of bounds: only count the bytes once they are stored
         self.data.insert(index, cow);
+        self.total_remaining_len += len;
     }
 
     /// Remove the last [`CowBytes`] from the [`LongChain`].
